@@ -200,7 +200,45 @@ def c20(cx):
         max_replay_quick=None)
 
 
-PROPS = {"C20": c20, "C10": c10, "C19": c19, "C12": c12, "C01": c01, "C13": c13, "C05": c05, "C06": c06, "C07": c07, "C08": c08, "C17": c17}
+TB_SRV = ["TLC 1.8.0 (model checking incl. liveness, trace validation)",
+          "harness: schedule gates at the verif hook points (goroutines parked until released), goroutine state "
+          "inspection (runtime.Stack) to tell 'blocked on the server mutex / WaitGroup' from 'stuck', event log under one mutex",
+          "Go runtime / compiler"]
+
+
+def c16(cx):
+    build_harness(cx)
+    thorough = cx.tier == "thorough"
+    big = {"Conns": '{"c1", "c2"}', "MaxCmds": 2} if thorough else None
+    # the design has the property (safety on the bounded model, liveness on the unbounded actions)
+    model_check(cx, "MC_C16", consts=({"Conns": '{"c1", "c2"}'} if thorough else None), export=False)
+    model_check(cx, "MC_C16_live", export=False, workers=4)
+    if thorough:
+        model_check(cx, "MC_C16", cfg="MC_C16_pinned.cfg", expect_violation="is violated", export=False)
+    # schedules: every interleaving of the permissive (lock-free) scheduler model, replayed on real goroutines
+    b = model_check(cx, "MC_C16", cfg="MC_C16_sched.cfg", consts=big)
+    subsample(cx, b, 20000 if thorough else 1500)
+    sample_behaviours(cx, b)
+    trace, crash = play(cx, b, "sched", cmd="sched")
+    rejected = [] if crash else validate(cx, trace, "Trace_PgServer")
+    judge(cx, b, trace, rejected, crash, "Trace_PgServer", play_cmd="sched")
+    count_distinct(cx, b)
+    cx.cov["trusted_base"] = TB_SRV
+    return finish(cx, "model_checking",
+                  "TLC checks on PgServer (one action per hook point of Close and of command admission): no double "
+                  "close, WaitGroup counter never negative, Close returns only when no handler runs, no handler starts "
+                  "after a Close returned (2 closers x 1-2 connections), and under fairness every Close returns and "
+                  "Serve returns nil (liveness, 2x2, no state constraint). Every interleaving of the lock-free scheduler "
+                  "model (a superset of what the code allows: Close calls and commands - delivered whole or in two parts "
+                  "- released step by step) is replayed on real goroutines parked at the hook points; the real order of "
+                  "releases, arrivals, Close returns/panics, listener close and Serve return is validated by TLC against "
+                  "the repaired design (Trace_PgServer; goroutines blocked on the mutex or WaitGroup are recognised by "
+                  "their scheduler state, not by timeouts). distinct_nontrivial = distinct schedules replayed.",
+                  ["connections are already in a session when the schedule starts",
+                   "handlers terminate (the scripted handler returns once released)"])
+
+
+PROPS = {"C16": c16, "C20": c20, "C10": c10, "C19": c19, "C12": c12, "C01": c01, "C13": c13, "C05": c05, "C06": c06, "C07": c07, "C08": c08, "C17": c17}
 
 
 def replay(cx, path):
